@@ -7,13 +7,24 @@ package segment
 
 //@ pure timeNow
 
+// representation invariant of a partially received message: SegCount is the number of segment
+// slots that are filled (nonnilcount: section 3 of DESIGN.md; its axioms are checked in Lean)
+//@ define rbinv(b): b.SegCount == nonnilcount(b.Msgs)
+// ... and no two partially received messages share a buffer object or a slot array
+//@ define rbsep(t): forall(s1, uint32, forall(s2, uint32, imp(has(t.ReadBuffer, s1) && has(t.ReadBuffer, s2) && s1 != s2, t.ReadBuffer[s1] != t.ReadBuffer[s2] && arrayof(t.ReadBuffer[s1].Msgs) != arrayof(t.ReadBuffer[s2].Msgs))))
+// both hold whenever nobody holds the table's lock (monitor invariant: assumed at Lock, proved at Unlock)
+//@ lockinv[C14] ReadBuffers.Mutex: self.ReadBuffer != nil && forall(s, uint32, imp(has(self.ReadBuffer, s), self.ReadBuffer[s] != nil && 0 <= self.ReadBuffer[s].MsgSize && rbinv(self.ReadBuffer[s]))) && rbsep(self)
+
 // add counts every segment index once: a segment that is already in (a duplicated datagram) changes
 // nothing, so a duplicate plus a loss can never complete a message with a hole in it.
 //@ func (*ReadBuffer).add
 //@   props C14
 //@   nopanic
 //@   requires 0 <= segIdx && 0 <= b.MsgSize
+//@   requires b.SegCount == nonnilcount(b.Msgs)
 //@   modifies b.SegCount; b.MsgSize; elems(b.Msgs)
+//@   ensures b.SegCount == nonnilcount(b.Msgs)
+//@   ensures imp(result1, forall(j, int, imp(0 <= j && j < len(b.Msgs), b.Msgs[j] != nil)))   // a message is handed up only when no segment is missing
 //@   ensures unchanged(b.Msgs)
 //@   ensures imp(old(len(b.Msgs)) <= segIdx, !result1 && result0 == nil && unchanged(b.SegCount) && unchanged(b.MsgSize))
 //@   ensures imp(old(len(b.Msgs)) <= segIdx, forall(j, int, imp(0 <= j && j < len(b.Msgs), b.Msgs[j] == old(b.Msgs[j]))))
@@ -35,6 +46,12 @@ package segment
 //@   ensures imp(len(bs) >= 8, has(t.ReadBuffer, be32(bs, 0)) == !result1)
 //@   ensures imp(len(bs) >= 8 && !old(has(t.ReadBuffer, be32(bs, 0))) && !result1, len(t.ReadBuffer[be32(bs, 0)].Msgs) == be16(bs, 4) + 1)   // one slot per announced segment, up to 65536
 //@   ensures imp(len(bs) >= 8 && old(has(t.ReadBuffer, be32(bs, 0))) && !result1, t.ReadBuffer[be32(bs, 0)] == old(t.ReadBuffer[be32(bs, 0)]) && len(t.ReadBuffer[be32(bs, 0)].Msgs) == old(len(t.ReadBuffer[be32(bs, 0)].Msgs)))
+
+// RemoveExpired only forgets buffered messages: what stays keeps the invariant
+//@ func (*ReadBuffers).RemoveExpired
+//@   props C14
+//@   nopanic
+//@   loop 1 invariant held(b.Mutex) && b.ReadBuffer != nil && forall(s, uint32, imp(has(b.ReadBuffer, s), b.ReadBuffer[s] != nil && 0 <= b.ReadBuffer[s].MsgSize && rbinv(b.ReadBuffer[s]))) && rbsep(b)
 
 //@ func (*ReadBuffer).build
 //@   props C14
